@@ -1120,6 +1120,147 @@ func unicodeSlices(c *Ctx) {
 	}
 }
 
+// ---------------------------------------------------------------- comments inside programs
+// Comments are AST nodes (skipped by evalStatements, dropped by compact printing).  Printing happens DURING evaluation
+// (SetCacheKey formats every function literal), so whatever the printer does to a block with comments must leave the
+// tree intact.  Templates with comment slots {C}: every slot is filled with a line comment, a block comment, both, or
+// nothing; the functions are defined and then CALLED (twice, both branches).  Oracle besides no-panic: the program with
+// comments and the same program with empty slots give the same outcome (class and printed value).
+var commentTemplates = []string{
+	"f=func(a){if a {1} else { {C} 2}}; [f(false), f(true), f(false)]",
+	"f=func(a){if a { {C} 1 {C} } else { {C} 2 {C} }}; [f(false), f(true), f(false)]",
+	"g=func(a){if a {1} else { {C} if !a {2}}}; [g(false), g(true), g(false)]",
+	"g=func(a){if a {1} else { {C} if !a {2} else {3} {C} }}; [g(false), g(true)]",
+	"func h(a){ {C} if a==1 {1} else if a==2 { {C} 2} else { {C} 3 {C} } {C} }; [h(1), h(2), h(3), h(3)]",
+	"func h(a){ {C} x=a {C} ; x+1 {C} }; [h(1), h(2), h(1)]",
+	"func k(n){ r=0; for i=n { {C} r=r+i {C} }; {C} r }; [k(3), k(4), k(3)]",
+	"func k(n){ r=0; for x=[1,2,n] { {C} if x>1 { {C} r=r+x} else { {C} r=r-1 {C} } }; r }; [k(3), k(4)]",
+	"func k(n){ r=0; for r<n { {C} r=r+1 {C} }; r }; [k(3), k(2)]",
+	"l=(a)=>{ {C} if a { {C} 1} else { {C} 2} }; [l(true), l(false), l(false)]",
+	"func o(a){ func(){ if a {1} else { {C} 2} } }; [o(false)(), o(true)(), o(false)()]",
+	"func p(a){ m={1:2} {C} ; if a { {C} m[1]} else { {C} [1,2] {C} } }; [p(true), p(false), p(false)]",
+	"m=macro(x){quote(if unquote(x) {1} else { {C} 2})}; func q(a){ m(a) }; [q(false), q(true)]",
+	"func r(a){ if a {1} else { {C} {C} {C} 2} }; s=r; [s(false), r(false), len(format(r)) > 0]",
+	"func t(a){ if a {return 1} {C} else { {C} return 2 {C} } }; [t(false), t(true)]",
+	"func u(a){ if a {1} else { {C} } }; [u(false), u(true), u(false)]",
+	"func v(n){ if n<=0 { {C} return 0}; {C} if n%2==0 { {C} v(n-1)+1} else { {C} v(n-1) {C} } }; [v(5), v(6)]",
+}
+
+func commentPrograms(c *Ctx) {
+	o := evalOpts{maxDepth: 200, dur: 2 * time.Second}
+	fills := []string{"// c\n", "/* c */", "// a\n /* b */ // d\n", "/* x */ /* y */", "\n// only\n", ""}
+	show := func(r outcome) string { return r.class + " " + trunc(r.insp, 200) }
+	for _, t := range commentTemplates {
+		n := strings.Count(t, "{C}")
+		plain := strings.ReplaceAll(t, "{C}", "")
+		ref := evalSrc(plain, o)
+		variants := [][]string{}
+		for _, f := range fills[:5] { // the same comment in every slot
+			v := make([]string, n)
+			for i := range v {
+				v[i] = f
+			}
+			variants = append(variants, v)
+		}
+		for i := 0; i < n; i++ { // exactly one slot filled
+			for _, f := range fills[:2] {
+				v := make([]string, n)
+				v[i] = f
+				variants = append(variants, v)
+			}
+		}
+		rn := 6
+		if c.Thorough() {
+			rn = 60
+		}
+		for k := 0; k < rn; k++ {
+			v := make([]string, n)
+			for i := range v {
+				v[i] = fills[c.R.Intn(len(fills))]
+			}
+			variants = append(variants, v)
+		}
+		for _, v := range variants {
+			src := t
+			for _, f := range v {
+				src = strings.Replace(src, "{C}", f, 1)
+			}
+			r := check(c, "comments", src, o)
+			if !r.parsed || !ref.parsed {
+				continue // a comment can change how a line ends: only compare when both parse
+			}
+			if show(r) != show(ref) {
+				c.Fail("comment-changes-outcome", src, "with comments: "+show(r)+" | without: "+show(ref))
+			}
+		}
+	}
+}
+
+// ---------------------------------------------------------------- guards hit from inside counted loops
+// A guard panic (depth, memory) or the deadline error raised in a callee unwinds through the loops that are running in
+// the callers; what comes out must still be the guard (never another panic text), and the state must be usable for a
+// second input with loops afterwards.
+func guardsInLoops(c *Ctx) {
+	callees := []struct{ def, call, want string }{
+		{`f=func(s){f(s)}`, `f("x")`, "Gd"},
+		{`f=func(a){f(a+1)}`, `f(i)`, "Gd"},
+		{`f=func(a,b){f(a+1,b)}`, `f(i,i)`, "Gd"},
+		{`f=func(a,b,c){1+f(a,b,c+1)}`, `f(1,i,2)`, "Gd"},
+		{`f=func(a){for k=2 {f(a+1)}}`, `f(i)`, "Gd"},
+		{`f=func(a){[f(a+1)]}`, `f(0)`, "Gd"},
+		{`f=func(a){[1,2,3]*4611686018427387904}`, `f(i)`, "Gm"},
+		{`f=func(s){s*6148914691236517206}`, `f("abc")`, "Gm"},
+		{`f=func(a,b){for k=3 {x=0:4611686018427387904}}`, `f(i,2)`, "Gm"},
+		{`f=func(a){for true {}}`, `f(i)`, "E"},
+		{`f=func(a){for k=0:9223372036854775807 {k}}`, `f(i)`, "E"},
+		{`f=func(a){1/0}`, `f(i)`, "E"},
+	}
+	loops := []string{
+		"for i=2 { CALL }",
+		"for i=0:2 { for j=2 { CALL } }",
+		"for i=2 { for j=2 { for l=2 { CALL } } }",
+		"for x=[1,2] { for i=2 { CALL } }",
+		"for i=2 { for true { CALL } }",
+		"func w(){ for i=2 { CALL } }; w()",
+		"func w(n){ for i=n { for j=n { CALL } } }; w(2)",
+		"func w(n,m){ r=0; for i=n { r=r+i; CALL }; r }; for q=2 { w(2,q) }",
+		"w=(n)=>{ for i=n { CALL } }; for q=2 { w(2) }",
+		"for i=2 { i++; CALL }", // a loop whose variable is not in a register
+		"i=1; CALL",             // no loop: the base line
+	}
+	follow := "r=0; for i=3 {for j=2 {r=r+i+j}}; func z(n){t=0; for k=n {t=t+k}; t}; [r, z(4)]"
+	for _, ce := range callees {
+		for _, lp := range loops {
+			src := ce.def + "; " + strings.ReplaceAll(lp, "CALL", ce.call)
+			for _, md := range []int{40, 301} {
+				o := evalOpts{maxDepth: md, dur: 25 * time.Millisecond}
+				r := check(c, "guard-in-loop", src, o)
+				if r.parsed && r.class != ce.want && r.class != "P" && r.class != "H" {
+					c.Fail("guard-in-loop:wrong-outcome:"+ce.want, src, "class "+r.class+": "+trunc(r.msg+r.insp, 120))
+				}
+			}
+			// through the real entry point, then a second input in the same state
+			s := eval.NewState()
+			s.MaxDepth = 60
+			var sb strings.Builder
+			s.Out, s.LogOut, s.NoLog = &sb, &sb, true
+			ro := repl.EvalStringOptions()
+			ro.MaxDuration = 25 * time.Millisecond
+			evalCount += 2
+			_, p1, errs1, _ := repl.EvalOne(context.Background(), s, src, &sb, ro)
+			if p1 && len(errs1) > 0 && !strings.Contains(errs1[0], "max depth") && !strings.Contains(errs1[0], "would exceed memory") {
+				c.Fail("guard-in-loop:evalone-other-panic", src, errs1[0])
+			}
+			sb.Reset()
+			ro.MaxDuration = 2 * time.Second
+			_, p2, errs2, _ := repl.EvalOne(context.Background(), s, follow, &sb, ro)
+			if p2 || len(errs2) > 0 || strings.TrimSpace(sb.String()) != "[9,6]" {
+				c.Fail("guard-in-loop:state-not-reusable", src+" ;; then: "+follow, fmt.Sprintf("panicked=%v errs=%v out=%q", p2, errs2, sb.String()))
+			}
+		}
+	}
+}
+
 // ---------------------------------------------------------------- wild grammar-generated programs
 type wild struct {
 	c     *Ctx
@@ -1506,7 +1647,10 @@ func runC07(c *Ctx) {
 		"m=macro(a){print(a); log(a); quote(unquote(a))}; m(1+2)", `unjson("println(1); [1,{2:3}]")`,
 		// range index on non-ASCII strings: byte bounds on a byte string (seeded regression 3)
 		`s="日本語のテキスト"*8; s[0:len(s)]`, `s="日本語のテキスト"*8; s[-3:]`, `"héllo wörld, grüß dich, señor, ça va très bien aujourd'hui"[1:]`,
-		`func tf(s,a){s[a:]}; tf("日本語のテキスト"*8, 3)`}
+		`func tf(s,a){s[a:]}; tf("日本語のテキスト"*8, 3)`,
+		// comments in the else block of a called function (seeded regression 4-1); guard below a counted loop (4-2)
+		"f=func(a){if a {1} else { // c\n 2}}; f(false)", "g=func(a){if a {1} else { /* c */ if !a {2}}}; g(false)",
+		`f=func(s){f(s)}; for i=2 {f("x")}`, "g=func(a,b){g(a+1,b)}; for i=2{g(i,i)}"}
 	for _, s := range corpus {
 		check(c, "corpus", s, std)
 		evalOneAgrees(c, s)
@@ -1671,6 +1815,10 @@ func runC07(c *Ctx) {
 
 	// 3e. slicing / indexing of non-ASCII strings (byte semantics everywhere)
 	unicodeSlices(c)
+
+	// 3f. comments inside called functions; 3g. guards raised below running counted loops
+	commentPrograms(c)
+	guardsInLoops(c)
 
 	// 4. builtin / extension sweep
 	sweep(c)
